@@ -23,6 +23,7 @@ CONSTANTS
  DevOrphanAlwaysSkipped = FALSE
  DevNoFlushOnAck = FALSE
  DevTolerateLostIdx = FALSE
+ DevRestoreCountsOrphan = FALSE
 INIT Init
 NEXT Next
 CHECK_DEADLOCK FALSE
